@@ -134,7 +134,7 @@ def inputs(mutator, rng, n):  # noqa: C901
 
     for _ in range(n):
         bad = rng.random() < 0.7
-        if mutator in ('CSSStyleSheet.cssText',):
+        if mutator in ('CSSStyleSheet.cssText', 'CSSStyleSheet._setCssTextWithEncodingOverride'):
             if bad:
                 kinds = ['style', 'style', 'media', 'page', 'fontface', 'comment', 'unknown']
                 k = rng.randrange(0, 4)
@@ -362,7 +362,7 @@ def inputs(mutator, rng, n):  # noqa: C901
             if which == 3:
                 t = pick(rng, ['color red', ': red', 'color:', 'color: red; top: 0', '', 'color: red !important !important'])
             add([t], 'prop-bad%d' % which)
-        elif member in ('propertyValue', 'value') or mutator in ('PropertyValue.cssText',):
+        elif member in ('propertyValue', 'value', 'cssValue') or mutator in ('PropertyValue.cssText',):
             add([pick(rng, VALUES_BAD if bad else VALUES_GOOD)], 'value-' + ('bad' if bad else 'good'))
         elif member == 'priority':
             add([pick(rng, PRIO_BAD if bad else PRIO_GOOD)], 'prio-' + ('bad' if bad else 'good'))
@@ -371,6 +371,14 @@ def inputs(mutator, rng, n):  # noqa: C901
             add([pick(rng, VALUES_BAD + VALUES_GOOD)], 'single-value')
         elif mutator in ('SelectorList.appendSelector', 'SelectorList.append'):
             add([pick(rng, SELECTORS_BAD if bad else SELECTORS_GOOD)], 'appendsel')
+        elif mutator == 'SelectorList.__delitem__':
+            add([pick(rng, [0, 1, 5, -1])], 'sellist-delitem')
+        elif member == 'cssRules':
+            add([{'rulelist': pick(rng, ['a { top: 0 }', 'a { top: 0 } b { left: 0 }', '/*c*/', '']), 'then': ''}],
+                'cssrules-obj')
+        elif member == 'atkeyword':
+            add([pick(rng, ['@import', '@IMPORT', '@im\\port', '@media', '@page', '@x', '@namespace', '@charset',
+                            '@font-face', '@variables', '@top-left', ''])], 'atkeyword')
         elif mutator == 'SelectorList.__setitem__':
             add([pick(rng, [0, 1, 5, -1]), pick(rng, SELECTORS_BAD if bad else SELECTORS_GOOD)], 'sellist-setitem')
         elif mutator == 'MediaList.mediaText':
